@@ -279,7 +279,7 @@ Proof.
   rewrite (assoc_pd (prune P) p1 k kvs2 Kk (keys_plain_of kvs2 K2)).
   destruct (assoc k kvs2) as [v2|] eqn:A; cbn [option_map]; [|exact IH].
   unfold app2. cbn [fst]. rewrite !map_app. f_equal; [|exact IH].
-  apply Hx; [exact Kv|eapply assoc_kp; eassumption].
+  apply Hx; [exact Kv|exact (assoc_kp k kvs2 v2 K2 A)].
 Qed.
 
 Theorem ind_all t1 : Ind t1.
@@ -330,3 +330,29 @@ Proof.
   rewrite (exclude_independent hatom udiff ops P E c t1 t2 Z K1 K2).
   rewrite (exclude_independent hatom udiff ops P E c t1' t2' Z K1' K2'). rewrite E1, E2. reflexivity.
 Qed.
+
+(* ---- the guard key_plain cannot be dropped: 1 == True is one dictionary key, the level path takes
+        the spelling of t2, so exclude_paths=['root[1]'] does not cover the content of t1 under its key 1 ---- *)
+Definition w8_h (_ : atom) : pystr := [].
+Definition w8_u (_ _ : pystr) : pystr := [].
+Definition w8_o (_ : path) (_ _ : list value) : list opcode := [].
+Definition w8_x : atom := AStr [120%N].
+Definition w8_P (p : path) : bool := path_eqb p [PKey (AInt 1)].
+Definition w8_t1 := VDict [(AInt 1, VDict [(w8_x, VAtom (AInt 1))])].
+Definition w8_t1' := VDict [(AInt 1, VAtom (AInt 7))].
+Definition w8_t2 := VDict [(ABool true, VDict [(w8_x, VAtom (AInt 2))])].
+Definition w8_c : cfg := mkCfg true 0 1 true.
+
+Lemma exclude_independent_alias_refuted :
+  prune w8_P [] w8_t1 = prune w8_P [] w8_t1' /\
+  projs (fst (run_diff w8_h w8_u w8_o w8_P no_skip w8_c w8_t1 w8_t2)) = [(KValue, [PKey (ABool true); PKey w8_x], [PKey (ABool true); PKey w8_x])] /\
+  projs (fst (run_diff w8_h w8_u w8_o w8_P no_skip w8_c w8_t1' w8_t2)) = [(KType, [PKey (ABool true)], [PKey (ABool true)])].
+Proof. vm_compute. repeat split; reflexivity. Qed.
+
+(* the guard is met by a non-trivial input, and prune really removes content *)
+Example independent_guard_example :
+  let t := VDict [(AStr [97%N], VList [VAtom (AInt 1); VDict [(AInt 3, VAtom ANone)]]); (ANone, VAtom (AInt 2))] in
+  keys_all key_plain t = true /\
+  prune (fun p => path_eqb p [PKey (AStr [97%N]); PIdx 1]) [] t =
+    VDict [(AStr [97%N], VList [VAtom (AInt 1); VAtom ANone]); (ANone, VAtom (AInt 2))].
+Proof. vm_compute. split; reflexivity. Qed.
